@@ -165,8 +165,10 @@ def run_impl(case, Event, uno, live=None):
         b = [mk_event(Event, t, d, copy.deepcopy(x), i) for t, d, x, i in case["b"]]
     a0, b0 = list(a), list(b)
     sa, sb = _snapshot(a), _snapshot(b)
+    res = None
     try:
-        out = ("ok", [full_view(e) for e in uno.union_no_overlap(a, b)])
+        res = uno.union_no_overlap(a, b)
+        out = ("ok", [full_view(e) for e in res])
     except Exception as ex:  # noqa: BLE001
         out = ("err", type(ex).__name__)
     nm = None
@@ -174,6 +176,15 @@ def run_impl(case, Event, uno, live=None):
             len(b) != len(b0) or any(x is not y for x, y in zip(b, b0)):
         nm = "an input list was changed (length or element identity)"
     nm = nm or _unmodified(a, sa) or _unmodified(b, sb)
+    if nm is None and res is not None:
+        # round 3: results are new objects (Props/C15own.v proves them fresh in the heap-level model): a result that IS an
+        # input event, or shares its data dict with one, lets later edits of the result reach the caller's events
+        ins = {id(x) for x in a0 + b0}
+        ins_data = {id(x.data) for x in a0 + b0}
+        if any(id(e) in ins for e in res):
+            nm = "an output event is an input object (later edits of the result would change the input)"
+        elif any(id(e.data) in ins_data for e in res):
+            nm = "an output event shares its data object with an input event (later edits of the result would change the input)"
     return out, nm
 
 
